@@ -44,6 +44,14 @@ def install(I: Interp):
     def np_unary(name):
         def f(I, a, k, n):
             v = a[0]
+            if type(v).__name__ == "Vec":
+                return type(v)([f(I, [x], k, n) for x in v.items])
+            try:
+                import sympy as _sp
+                if isinstance(v, _sp.Basic):
+                    return {"log": _sp.log, "exp": _sp.exp, "sqrt": _sp.sqrt, "abs": _sp.Abs, "log10": lambda x: _sp.log(x, 10)}[name](v)
+            except ImportError:
+                pass
             if isinstance(v, Arr):
                 return v.with_num(Num.atom(f"{name}({v.num.canon()})"))
             return Num.atom(f"{name}({I.describe(v)})")
@@ -238,6 +246,12 @@ def install_vec(I: Interp):
         idx = a[0]
         if isinstance(idx, slice):
             return Vec(v.items[idx])
+        try:
+            import sympy as _sp
+            if isinstance(idx, _sp.Basic) and idx.is_Integer:
+                idx = Num.const(int(idx))
+        except ImportError:
+            pass
         if isinstance(idx, Num) and idx.is_const():
             i = int(idx.value())
             if not -len(v.items) <= i < len(v.items):
@@ -251,6 +265,52 @@ def install_vec(I: Interp):
             return Vec([vgetitem(I, v, [j], {}, n) for j in idx.items])
         I.err(n, f"Vec[{idx!r}]")
     M[("Vec", "__getitem__")] = vgetitem
+
+    def vsetitem(I, v, a, k, n):
+        idx, val = a
+        i = I.to_py(idx, n)
+        if not isinstance(i, int) or not -len(v.items) <= i < len(v.items):
+            raise I.fault("IndexError", n, "index out of bounds")
+        v.items[i] = val
+        return None
+    M[("Vec", "__setitem__")] = vsetitem
+    zero = lambda I: (__import__("sympy").Integer(0) if getattr(I, "sympy_mode", False) else Num.const(0))
+    E["numpy.zeros_like"] = lambda I, a, k, n: Vec([zero(I) for _ in a[0].items]) if isinstance(a[0], Vec) else zero(I)
+    E["numpy.zeros"] = lambda I, a, k, n: Vec([zero(I) for _ in range(I.to_py(a[0], n))])
+
+    def cumsum(I, a, k, n):
+        import ast as _a
+        out, acc = [], None
+        for x in a[0].items:
+            acc = x if acc is None else I.binop(_a.Add(), acc, x, n)
+            out.append(acc)
+        return Vec(out)
+    E["numpy.cumsum"] = cumsum
+
+    def unique(I, a, k, n):
+        """numpy.unique on a non-decreasing symbolic vector: adjacent equalities fork (assumption: input is sorted)"""
+        import ast as _a
+        v = a[0]
+        vals, idx = [], []
+        for i, x in enumerate(v.items):
+            if vals and I.truth(I.compare(_a.Eq(), vals[-1], x, n), n, label=f"dup[{i}]"):
+                continue
+            vals.append(x)
+            idx.append(Num.const(i) if not getattr(I, "sympy_mode", False) else __import__("sympy").Integer(i))
+        if k.get("return_index"):
+            return (Vec(vals), Vec(idx))
+        return Vec(vals)
+    E["numpy.unique"] = unique
+
+    def bsum(I, a, k, n):
+        import ast as _a
+        items = I.iterate(a[0], n)
+        acc = a[1] if len(a) > 1 else zero(I)
+        for x in items:
+            acc = I.binop(_a.Add(), acc, x, n)
+        return acc
+    E["builtins.sum"] = bsum
+    E["numpy.sum"] = lambda I, a, k, n: bsum(I, a, k, n) if isinstance(a[0], Vec) else Num.atom(f"sum({I.describe(a[0])})")
     I.vec_len = lambda v: Num.const(len(v.items))
 
     def npdiff(I, a, k, n):
